@@ -7,6 +7,8 @@ import (
 	"sort"
 	"strings"
 	"testing"
+	"time"
+	"verif/harness/fsrc"
 
 	conf "github.com/alibaba/RedisShake/redis-shake/configure"
 	"github.com/alibaba/RedisShake/redis-shake/dbSync"
@@ -167,3 +169,74 @@ func c20SyncerWindow(t *rapid.T) {
 }
 
 func TestC20SyncerWindow(t *testing.T) { rapid.Check(t, c20SyncerWindow) }
+
+// c20SyncE2E: a complete DbSyncer.Sync() start on a cluster source whose configured node has been demoted: the
+// replication link (SYNC/PSYNC) must be opened to the node that reports master now, not to the node the syncer was
+// configured with.
+func c20SyncE2E(t *rapid.T) {
+	conf.Options.SourceType = conf.RedisTypeCluster
+	defer func() { conf.Options.SourceType = conf.RedisTypeStandalone }()
+	o := &conf.Options
+	o.ResumeFromBreakPoint, o.Parallel, o.KeyExists, o.TargetDB = false, 1, "none", -1
+	defer resetIncrConf()
+	n := rapid.IntRange(2, 3).Draw(t, "nodes")
+	master := rapid.IntRange(0, n-1).Draw(t, "master")
+	rdbFile := []byte("REDIS0009")
+	rdbFile = append(rdbFile, 0xff)
+	rdbFile = appendCRC(rdbFile)
+	var srcs []*fsrc.Source
+	var addrs []string
+	for i := 0; i < n; i++ {
+		plan := fsrc.Plan{Steps: []fsrc.Step{{Send: []byte(fmt.Sprintf("+FULLRESYNC %s 1\r\n$%d\r\n", c08RunID, len(rdbFile)))}, {Send: rdbFile}, {Sleep: 4 * time.Second}}}
+		s := fsrc.New(srcSentinel, plan, plan)
+		if i != master {
+			s.Role = "slave"
+		}
+		srcs = append(srcs, s)
+		addrs = append(addrs, s.Addr())
+	}
+	tgt := mredis.New()
+	tgt.Password = tgtSentinel
+	tgt.Listen()
+	defer func() {
+		for _, s := range srcs {
+			s.Retire(4 * time.Second)
+		}
+		tgt.CloseConns()
+		time.AfterFunc(4*time.Second, func() { tgt.Close() })
+	}()
+	id := <-incrSlots
+	defer func() { time.AfterFunc(5*time.Second, func() { incrSlots <- id }) }()
+	node := &slot.SyncNode{Id: id, Source: addrs[0], Slaves: append([]string{}, addrs[1:]...), SourcePassword: srcSentinel, TargetPassword: tgtSentinel,
+		Target: []string{tgt.Addr()}, SlotLeftBoundary: 0, SlotRightBoundary: 16383}
+	ds := dbSync.NewDbSyncer(node, 9320, semaphore.NewWeighted(4))
+	logcap.Start(func() { ds.Sync() })
+	replicaOf := func() int {
+		for i, s := range srcs {
+			for _, c := range s.ConnList() {
+				for _, r := range c.Commands() {
+					if cmd := strings.ToLower(r.Argv[0]); cmd == "psync" || cmd == "sync" {
+						return i
+					}
+				}
+			}
+		}
+		return -1
+	}
+	got := -1
+	for dl := time.Now().Add(8 * time.Second); time.Now().Before(dl) && got < 0; time.Sleep(30 * time.Millisecond) {
+		got = replicaOf()
+	}
+	dropLeftoverAborts()
+	if got != master {
+		what := fmt.Sprintf("node%d", got)
+		if got < 0 {
+			what = "no node (within 8 s)"
+		}
+		violation(t, "C20", "sync-links-to-non-master", "cluster source with %d nodes, node%d reports master (the syncer was configured with node0): Sync() opened its replication link to %s", n, master, what)
+		return
+	}
+	stats.C.Case(master != 0, stats.HashS(fmt.Sprint(n, master)), "sync-end-to-end")
+}
+
+func TestC20SyncE2E(t *testing.T) { rapid.Check(t, c20SyncE2E) }
